@@ -25,6 +25,7 @@ type purityDiff struct {
 	oa       *orderAnalysis
 	problems []string
 	added    int
+	impure   string // the last callee judged to have an effect, for the report
 }
 
 func nodeText(fset *token.FileSet, n ast.Node) string {
@@ -114,6 +115,11 @@ func (d *purityDiff) pureExpr(e ast.Expr) bool {
 			sf := d.p.SSA.FuncValue(fn)
 			if sf == nil || !d.oa.isPure(sf) {
 				ok = false
+				why := "has effects (a store to shared memory, an impure call)"
+				if sf != nil && len(mutatedParams(sf)) > 0 {
+					why = "may write through its argument (a store, copy or append into memory reached from a parameter)"
+				}
+				d.impure = fmt.Sprintf("%s %s", fn.FullName(), why)
 			}
 		case *ast.UnaryExpr:
 			if x.Op == token.ARROW {
@@ -138,10 +144,14 @@ func (d *purityDiff) stmts(ps, ds []ast.Stmt) {
 			d.added++
 			j++
 		case j < len(ds) && i < len(ps):
+			if d.impure != "" {
+				d.bad(ds[j].Pos(), "debug variant inserts a statement with an effect: %q — %s", firstLine(nodeText(d.pkDebug.Fset, ds[j])), d.impure)
+				return
+			}
 			d.bad(ds[j].Pos(), "debug variant differs from the plain variant by more than an inserted print: %q vs %q", firstLine(nodeText(d.pkDebug.Fset, ds[j])), firstLine(nodeText(d.pkPlain.Fset, ps[i])))
 			return
 		case j < len(ds):
-			d.bad(ds[j].Pos(), "debug variant adds a statement that is not a pure print: %q", firstLine(nodeText(d.pkDebug.Fset, ds[j])))
+			d.bad(ds[j].Pos(), "debug variant adds a statement that is not a pure print: %q %s", firstLine(nodeText(d.pkDebug.Fset, ds[j])), d.impure)
 			return
 		default:
 			d.bad(ps[i].Pos(), "statement of the plain variant is missing in the debug variant: %q", firstLine(nodeText(d.pkPlain.Fset, ps[i])))
